@@ -274,10 +274,6 @@ def cause_of(ra, rb):
     return "other"
 
 
-def _numbers(t):
-    return [s for s in ro.subterms(t) if s[0] in ("i", "f")]
-
-
 def _number_string_order_differs(x, y):
     """Two numbers whose order as decimal strings differs from their order as numbers (defect D1 shape)."""
     sx, sy = ro.render(x), ro.render(y)
@@ -286,61 +282,38 @@ def _number_string_order_differs(x, y):
     return (sx < sy) != (x[1] < y[1])
 
 
-def _case_texts(case):
+def _case_pairs(case):
+    """The pairs of reference terms a comparison in this case can be about: the pair itself (pairs / program
+    cases) and every two elements of the list or triple."""
+    out = []
     if "a" in case and "b" in case:
-        out = [case["a"], case["b"]]
-    elif "terms" in case:
-        out = list(case["terms"])
-    elif "t" in case:
-        out = [case["t"]]
-    else:
-        out = []
-    out += list(case.get("list", []))
+        out.append((ro.parse(case["a"]), ro.parse(case["b"])))
+    texts = list(case.get("terms", [])) + list(case.get("list", []))
+    refs = [ro.parse(t) for t in texts]
+    out += list(itertools.combinations(refs, 2))
     return out
 
 
 def class_number_string_order(case, failure=None):
-    """The case contains two numbers with different values whose decimal-string order is not their numeric
-    order.  pairs/program: at the first position where the two terms differ, or anywhere in the list;
-    laws/sort: anywhere in the terms."""
-    if "a" in case and "b" in case:
-        d = first_difference(ro.parse(case["a"]), ro.parse(case["b"]))
+    """Two terms of the case (the pair; two elements of the list / triple) first differ at two numbers with
+    different values whose order as decimal strings is not their numeric order (10 vs 9, -1 vs -1.5)."""
+    for x, y in _case_pairs(case):
+        d = first_difference(x, y)
         if d is not None and d[0] == "number-value" and _number_string_order_differs(d[1], d[2]):
             return True
-        texts = list(case.get("list", []))
-    else:
-        texts = _case_texts(case)
-    nums = []
-    for t in texts:
-        nums += _numbers(ro.parse(t))
-    return any(_number_string_order_differs(x, y) for x, y in itertools.combinations(nums, 2))
+    return False
 
 
 def class_quoted_atom_order(case, failure=None):
-    """Two DIFFERENT atoms / compound names of which at least one is written with quotes have to be ordered:
-    pairs/program: at the first position where the two terms differ (or a quoted name anywhere in the list);
-    lists/triples: a quoted name anywhere."""
-    if "a" in case and "b" in case:
-        if cause_of(ro.parse(case["a"]), ro.parse(case["b"])) == "quoted-atom-order":
-            return True
-        texts = list(case.get("list", []))
-    else:
-        texts = _case_texts(case)
-    return any(ro.has_quoted(ro.parse(t)) for t in texts)
+    """Two terms of the case (the pair; two elements of the list / triple) first differ at two DIFFERENT atoms /
+    compound names of which at least one is written with quotes ('b' vs a)."""
+    return any(cause_of(x, y) == "quoted-atom-order" for x, y in _case_pairs(case))
 
 
 def class_quoted_atom_identity(case, failure=None):
-    """The case contains one term in two spellings (with and without quotes, e.g. 'b' and b, f('b') and f(b)):
-    the pair itself, or two elements of the list / triple."""
-    def two_spellings(texts):
-        refs = [ro.parse(t) for t in texts]
-        return any(cause_of(x, y) == "quoted-atom-identity" for x, y in itertools.combinations(refs, 2))
-
-    if "a" in case and "b" in case:
-        if two_spellings([case["a"], case["b"]]):
-            return True
-        return two_spellings(list(case.get("list", [])))
-    return two_spellings(_case_texts(case))
+    """Two terms of the case (the pair; two elements of the list / triple) first differ at one atom / compound
+    name written once with and once without quotes ('b' vs b, g('b',2) vs g(b,1))."""
+    return any(cause_of(x, y) == "quoted-atom-identity" for x, y in _case_pairs(case))
 
 
 KNOWN_CLASSES = {
@@ -781,7 +754,7 @@ SUBCHECKS = [
              exhaustive="variable vs every universe term and -2..-7, both sides; variable as deciding argument of "
                         "f/1, g/2 vs atomic terms and two compounds; as query arguments and in clause bodies"),
     SubCheck("sort", check_sort, enumerate=enum_sort, strategy=_sort_strategy,
-             budget={"quick": 4000, "thorough": 100000},
+             budget={"quick": 3000, "thorough": 100000},
              exhaustive="all lists of length 2 and 3 over 12 terms (2, 10, 9, 2.0, a, b, 'b', 'B', f(a), f(10), "
                         "g(a,b), b(a,a))"),
     SubCheck("program", check_program, strategy=_program_strategy, render=render_program,
